@@ -79,7 +79,15 @@ ItemLines(it) ==
             [] it.site = "if-body"      -> <<"{% if yes %}", "{{ " \o e \o " }}", "{% else %}x{% endif %}">>
             [] it.site = "case-when"    -> <<"{% case 1 %}{% when 1 %}", "{{ " \o e \o " }}", "{% endcase %}">>
             [] it.site = "liquid"       -> <<"{% liquid", "  assign z = 1", "  echo " \o e, "%}">>
-            [] it.site = "filter-arg"   -> <<"{{ 'x' | append: m }}{{ " \o e \o " }}">>)
+            [] it.site = "filter-arg"   -> <<"{{ 'x' | append: m }}{{ " \o e \o " }}">>
+            \* bodies that print nothing themselves
+            [] it.site = "if-assign"    -> <<"{% if yes %}", "{% assign a = " \o e \o " %}", "{% endif %}{{ a }}">>
+            [] it.site = "for-assign"   -> <<"{% for i in (1..2) %}", "{% assign a = " \o e \o " %}", "{% endfor %}{{ a }}">>
+            [] it.site = "liquid-assign" -> <<"{% liquid", "  # only assignments here", "  assign a = " \o e, "%}{{ a }}">>
+            [] it.site = "capture-in-if" -> <<"{% if yes %}{% capture a %}", "{{ " \o e \o " }}", "{% endcapture %}{% endif %}{{ a }}">>
+            \* both branches of an inline if are messages: the second one is 'Bye' | gettext
+            [] it.site = "ternary-both" -> <<"{{ " \o e \o " if yes else 'Bye' | gettext }}">>
+            [] it.site = "ternary-both-no" -> <<"{{ " \o e \o " if no else 'Bye' | gettext }}">>)
     [] it.k = "comment" ->
          (CASE it.site = "block"      -> <<"{% comment %}" \o it.c \o "{% endcomment %}">>
             [] it.site = "block-multi" -> <<"{% comment %}", it.c, "{% endcomment %}">>
@@ -89,8 +97,8 @@ ItemLines(it) ==
          (CASE it.site = "text" -> <<"plain text">> [] it.site = "assign" -> <<"{% assign z = 1 %}">> [] it.site = "blank" -> <<"">>
             [] it.site = "same-line" -> <<>>)     \* no line of its own: the next item continues the line
 MsgLineOffset(it) ==
-  IF it.k = "filter" /\ it.site \in {"for-body", "if-body", "case-when"} THEN 2
-  ELSE IF it.k = "filter" /\ it.site = "liquid" THEN 3 ELSE 1
+  IF it.k = "filter" /\ it.site \in {"for-body", "if-body", "case-when", "if-assign", "for-assign", "capture-in-if"} THEN 2
+  ELSE IF it.k = "filter" /\ it.site \in {"liquid", "liquid-assign"} THEN 3 ELSE 1
 
 \* the template text, and the first line of every item
 RECURSIVE LinesOf(_)
@@ -128,7 +136,9 @@ Calls(it, n) ==
                             IF it.plural # "none" /\ it.count # "none"
                             THEN Call(IF it.ctx = "none" THEN "ngettext" ELSE "npgettext", IF it.ctx = "none" THEN "" ELSE CtxVal(it.ctx), id, pid, CountVal(it.count, n))
                             ELSE Call(IF it.ctx = "none" THEN "gettext" ELSE "pgettext", IF it.ctx = "none" THEN "" ELSE CtxVal(it.ctx), id, "", -1)
-         IN IF it.site = "for-body" THEN <<once, once>> ELSE <<once>>
+             bye == Call("gettext", "", "Bye", "", -1)
+         IN IF it.site \in {"for-body", "for-assign"} THEN <<once, once>>
+            ELSE IF it.site = "ternary-both-no" THEN <<bye>> ELSE <<once>>
     [] OTHER -> <<>>
 
 RECURSIVE AllCalls(_, _)
@@ -166,11 +176,17 @@ CommentsFor(p, i) ==
      /\ FirstLine(p, i) + MsgLineOffset(p[i]) - 1 <= LastLine(p, i - 1) + 1      \* the message is on the very next line
   THEN <<p[i - 1].c>> ELSE <<>>
 
-Extracted(p) ==
-  LET idx == SelectSeq([i \in DOMAIN p |-> i], LAMBDA i : Reportable(p[i])) IN
-  [j \in DOMAIN idx |->
-     LET i == idx[j] IN
-     [line |-> FirstLine(p, i) + MsgLineOffset(p[i]) - 1, msg |-> Message(p[i]), comments |-> CommentsFor(p, i)]]
+ByeMsg == [fam |-> "gettext", ctx |-> "", id |-> "Bye", plural |-> ""]
+Both(it) == it.k = "filter" /\ it.site \in {"ternary-both", "ternary-both-no"}
+RECURSIVE ExtractFrom(_, _)
+ExtractFrom(p, i) ==
+  IF i > Len(p) THEN <<>>
+  ELSE LET line == FirstLine(p, i) + MsgLineOffset(p[i]) - 1
+           first == IF Reportable(p[i]) THEN <<[line |-> line, msg |-> Message(p[i]), comments |-> CommentsFor(p, i)]>> ELSE <<>>
+           \* the second message of the line gets the comment only if the first did not take it
+           second == IF Both(p[i]) THEN <<[line |-> line, msg |-> ByeMsg, comments |-> IF first = <<>> THEN CommentsFor(p, i) ELSE <<>>]>> ELSE <<>>
+       IN first \o second \o ExtractFrom(p, i + 1)
+Extracted(p) == ExtractFrom(p, 1)
 
 \* ---- the property on the specification ---------------------------------------------------------------
 \* every lookup whose identifiers are literals of the template is reported: same family, same ids, on
@@ -196,7 +212,8 @@ CommentsOnce ==
 \* ---- pools ---------------------------------------------------------------------------------------------
 Kinds3 == {"none", "lit", "var"}
 TagPool == {Tag(c, p, n, t) : c \in Kinds3, p \in {"none", "lit"}, n \in {"none", "0", "1", "2", "var"}, t \in TagTexts}
-Sites == {"output", "echo", "assign", "ternary-left", "ternary-alt", "then-filter", "after-filter", "for-body", "if-body", "case-when", "liquid", "filter-arg"}
+Sites == {"output", "echo", "assign", "ternary-left", "ternary-alt", "then-filter", "after-filter", "for-body", "if-body", "case-when", "liquid", "filter-arg",
+          "if-assign", "for-assign", "liquid-assign", "capture-in-if", "ternary-both", "ternary-both-no"}
 FilterPool ==
   {Flt("gettext", l, "none", "none", "none", s) : l \in {"lit", "var"}, s \in Sites}
   \cup {Flt("pgettext", l, c, "none", "none", s) : l \in {"lit", "var"}, c \in {"lit", "var"}, s \in Sites}
@@ -212,8 +229,11 @@ PoolAt(i) ==
   CASE Variant = "tags"     -> IF i = 1 THEN TagPool ELSE {}
     [] Variant = "filters"  -> IF i = 1 THEN FilterPool ELSE {}
     [] Variant = "comments" -> (CASE i = 1 -> CommentPool
-                                  [] i = 2 -> FillerPool \cup CommentPool \cup {Tag("none", "none", "none", "Hello, World!"), Flt("t", "lit", "none", "none", "none", "output")}
+                                  [] i = 2 -> FillerPool \cup CommentPool \cup {Tag("none", "none", "none", "Hello, World!"), Flt("t", "lit", "none", "none", "none", "output"),
+                                                                               Flt("t", "lit", "none", "none", "none", "ternary-both"), Flt("pgettext", "lit", "lit", "none", "none", "ternary-both-no")}
                                   [] i = 3 -> {Tag("lit", "lit", "var", "Hello, World!"), Flt("t", "lit", "none", "none", "none", "output"), Flt("gettext", "lit", "none", "none", "none", "if-body"),
+                                               Flt("t", "lit", "none", "none", "none", "ternary-both"), Flt("t", "var", "none", "none", "none", "ternary-both"),
+                                               Flt("gettext", "lit", "none", "none", "none", "ternary-both-no"), Flt("gettext", "lit", "none", "none", "none", "liquid-assign"),
                                                Flt("t", "var", "none", "none", "none", "output")}
                                   [] i = 4 -> {Flt("gettext", "lit", "none", "none", "none", "echo"), Tag("none", "none", "none", "Hello, %(you)s!")}
                                   [] OTHER -> {})
